@@ -3,6 +3,8 @@ scripted handlers / middleware / upload handlers (DESIGN.md §13)."""
 from __future__ import annotations
 
 import asyncio
+import json
+import zlib
 import re
 import urllib.parse as up
 
@@ -344,6 +346,12 @@ async def run_conn(loop: VLoop, c, middleware=None, upload_handler=None, handler
             elif k == "l":
                 if not lost:
                     lost = True
+                    if c.get("eof", zlib.crc32(json.dumps(c["evs"]).encode()) & 1):
+                        # a clean end of stream from the peer (FIN / close_notify): asyncio calls eof_received() first; under TLS
+                        # whatever it returns the connection is then closed.  (Otherwise: an abrupt loss, connection_lost only.)
+                        eof = getattr(p, "eof_received", None)
+                        if eof is not None:
+                            eof()      # no loop iteration in between: what a queued callback writes now goes to a closing transport
                     p.connection_lost(None)
             elif k in ("ma", "mr", "mn", "md"):
                 g = gates.pop("m", None)
